@@ -175,6 +175,26 @@ def addOps : Expr → List Expr
   | .add a b => addOps a ++ addOps b
   | e => [e]
 
+/-- what the folder (`commutative`) does to the flattened chain: literal zeros are dropped, the
+other number literals are added into the position of the first one, and a chain left with a
+single non-constant operand gets `+ 0` back. Values are unaffected, the order in which operands
+are evaluated and checked is. `pre`/`post` = kept operands before/after the merged literal. -/
+def foldAddGo (pre : List Expr) (k : Option Int) (post : List Expr) : List Expr → List Expr
+  | [] => match k with
+    | some n => pre ++ .num n :: post
+    | none => match pre with
+      | [] => [.num 0]
+      | [e] => [e, .num 0]
+      | _ => pre
+  | .num n :: rest =>
+    if n = 0 then foldAddGo pre k post rest
+    else match k with
+      | none => foldAddGo pre (some n) post rest
+      | some m => foldAddGo pre (some (m + n)) post rest
+  | e :: rest => match k with
+    | none => foldAddGo (pre ++ [e]) k post rest
+    | some _ => foldAddGo pre k (post ++ [e]) rest
+
 /-- outcome of evaluating an expression / running statements -/
 inductive Res (α : Type) where
   /-- an exception (uninitialized variable, not a number, not callable, wrong number of
@@ -196,7 +216,7 @@ def evalE : Nat → Frame → State → Expr → Res Val
   | fuel + 1, fr, st, .add a b =>
     -- parenthesised nested additions are one left-to-right chain (the compiler flattens them):
     -- `a + (b + c)` checks `a + b` before `c` is evaluated
-    match addOps (.add a b) with
+    match foldAddGo [] none [] (addOps (.add a b)) with
     | [] => .err st
     | e1 :: rest =>
       match evalE fuel fr st e1 with
